@@ -52,3 +52,19 @@ package corebgp
 // set view of attrsBitmap: bmHas(bitmap value, code)
 //@ uf bmHas(2) bool
 //@ axiom forall c :: !bmHas(emptyArr(), c)
+
+// notificationError carrying an outbound NOTIFICATION (code, subcode)
+//@ pure isOutNotifErr(e, c, s) = isType(e, *notificationError) && asType(e, *notificationError) != nil && asType(e, *notificationError).out && asType(e, *notificationError).notification != nil && asType(e, *notificationError).notification.Code == c && asType(e, *notificationError).notification.Subcode == s
+//@ pure notifOf(e) = asType(e, *notificationError).notification
+// capabilities (RFC 5492): code(1) length(1) value(length)
+//@ pure capNext(b, o) = o + 2 + b[o+1]
+//@ pure capOK(b, o) = 0 <= o && o + 2 <= len(b) && o + 2 + b[o+1] <= len(b)
+//@ pure capIs(cap, b, o) = cap.Code == b[o] && len(cap.Value) == b[o+1] && (b[o+1] > 0 ==> sameSlice(cap.Value, b[o+2 : o+2+b[o+1]]))
+//@ pure capChain(b, offs, n, pos) = (n == 0 ? pos == 0 : offs[0] == 0 && pos == capNext(b, offs[n-1])) && (forall k :: 0 <= k && k < n - 1 ==> offs[k+1] == capNext(b, offs[k]))
+// add-path tuple (RFC 7911): AFI(2) SAFI(1) send/receive(1)
+//@ pure srCode(tx, rx) = tx ? (rx ? 3 : 2) : (rx ? 1 : 0)
+// optional parameters (RFC 4271 4.2): type(1) length(1) value(length); ghost
+// field capOffs(c) holds the offsets of c's capabilities inside its own value
+//@ ghostfield capOffs intarray
+//@ pure capsDecoded(c, pb, offs) = len(c.capabilities) >= 1 && capChain(pb, offs, len(c.capabilities), len(pb)) && (forall j :: 0 <= j && j < len(c.capabilities) ==> capOK(pb, offs[j]) && capIs(c.capabilities[j], pb, offs[j]))
+//@ pure paramIs(p, b, o) = isType(p, *capabilityOptionalParam) && asType(p, *capabilityOptionalParam) != nil && b[o] == 2 && b[o+1] >= 1 && capsDecoded(asType(p, *capabilityOptionalParam), b[o+2 : o+2+b[o+1]], capOffs(asType(p, *capabilityOptionalParam)))
